@@ -456,8 +456,12 @@ func runC12(t *testing.T, ch *sim.Choices, tier string) (o Outcome) {
 	if nested && fired > 0 {
 		o.fault("nested_evaluation_aborted_inside_compiled_call", 1)
 		// the outer evaluation was not aborted: it must finish exactly as if undisturbed
-		if fmtPanic(esc) != c12RefEsc[p.Name] || exceeded {
-			o.fail("nested-abort-disturbs-outer", normKey("c12", p.Name, "escaped"), fmt.Sprintf("probe %s: a nested evaluation started by compiled call %d panicked and was recovered by the compiled function; the outer evaluation then ended with %s, undisturbed it ends with %s\noutput: %s", p.Name, k, fmtPanic(esc), c12RefEsc[p.Name], tailStr(e.out.String(), 600)))
+		wantEsc := c12RefEsc[p.Name]
+		if entry == entryREPL && trap {
+			wantEsc = fmtPanic(nil) // the REPL path prints a panic of the probe instead of letting it escape
+		}
+		if fmtPanic(esc) != wantEsc || exceeded {
+			o.fail("nested-abort-disturbs-outer", normKey("c12", p.Name, "escaped"), fmt.Sprintf("probe %s: a nested evaluation started by compiled call %d panicked and was recovered by the compiled function; the outer evaluation then ended with %s, undisturbed it ends with %s\noutput: %s", p.Name, k, fmtPanic(esc), wantEsc, tailStr(e.out.String(), 600)))
 			return
 		}
 		if i, x, y := firstDiff(ctx.Log, c12RefLog[p.Name]); i >= 0 {
